@@ -20,7 +20,7 @@ Protocol (one case = a HISTORY over several Ribosome instances):
   The registry the caller supplied (key -> sequence) is what includes and translate(name) are judged against.
   strict <id> <0|1>               instance.strict = bool   (public attribute re-assigned after construction)
   filt <id> <set>                 instance.filters = builtin snapshot + the set's custom filters   (same)
-  render <id> <sequence>          -> ok <text> <warned names> | raise:<Class>      (synthesize)
+  render <id> <sequence>          -> ok <text> <warned names> <names in Protein.variables_bound> | raise:<Class>      (synthesize)
   translate <id> <name>
 """
 from __future__ import annotations
@@ -377,7 +377,8 @@ class C12(Prop):
         "classes); a name equal to a positionally filled parameter of the entry point (self, template; sequence for "
         "synthesize) cannot be given as a keyword at all (TypeError from the call protocol, modelled, no oracle claim); "
         "dict keys are strings",
-        "custom filters return str; the Protein fields source_mrna/variables_bound and the statistics counters are not modelled",
+        "custom filters return str; the Protein field source_mrna and the statistics counters are not modelled "
+        "(variables_bound: its names are observed and compared)",
     ]
     trusted_modelled = ["modelled, not verified: Ribosome.translate and its four passes as Operon.Ribosome.translate "
                         "(string layer); token layer Operon.Tmpl.renderTok and specification Operon.Tmpl.renderSpec"]
@@ -850,7 +851,11 @@ class C12(Prop):
                     else:
                         p = rb.translate(unhexs(t[2]), **py)
                     ws = [hexs(w.rsplit(": ", 1)[-1]) for w in p.warnings]
-                    obs.append(f"ok {hexs(p.sequence)} {','.join(ws) if ws else '-'}")
+                    try:
+                        vb = ",".join(hexs(str(k)) for k in p.variables_bound) or "-"
+                    except Exception:
+                        vb = "?"
+                    obs.append(f"ok {hexs(p.sequence)} {','.join(ws) if ws else '-'} {vb}")
                 except RecursionError:
                     obs.append("raise:RecursionError")
                 except Exception as e:
@@ -978,6 +983,14 @@ class C12(Prop):
             f = o.split(" ")
             got = unhexs(f[1])
             warned = [] if f[2] == "-" else [unhexs(x) for x in f[2].split(",")]
+            # "with the given bindings": what the Protein reports as bound is what was given, no more, no less
+            if len(f) > 3:
+                try:
+                    vb = set() if f[3] == "-" else {unhexs(x) for x in f[3].split(",")}
+                except Exception:
+                    vb = None
+                if vb != set(ab):
+                    add(Violation("variables_bound_are_the_given_bindings", f"{sorted(ab)}", f"{f[3] if vb is None else sorted(vb)}", idx), None)
             if got != want:
                 add(Violation("one_left_to_right_expansion", repr(want), repr(got), idx), brace)
             for n in missing:
